@@ -83,7 +83,7 @@ def r2(run, db):
                     good = roots and all(r["k"] == "arg" and r["local"] == 2 for r in roots) and "SendError" in g.local_ty(2)
                     what = "the payload of the channel's SendError"
                 run.check(bool(good), "handback:%s" % g.id, "SendErr built in %s carries %s" % (g.id, what), "SendErr built in %s does not carry the original message (%s)" % (g.id, [r["k"] for r in roots]), g.where(s.get("l")))
-    run.anchor("SendErr constructions in send paths", n, 3)
+    run.anchor("SendErr constructions in send paths", n, 2)      # structural minimum: one refusal in the body, one in the channel-error mapping
     # From<SendError<T>> for MessagingErr<T> forwards .0
     for f in db.crate_fns("ractor"):
         if f.raw.get("impl_trait", "").endswith("convert::From") and "MessagingErr" in (f.raw.get("impl_self") or "") and "SendError" in " ".join(f.raw.get("inputs", [])):
